@@ -52,7 +52,7 @@ def partition(classes):
     return {frozenset(s) for s in d.values()}
 
 
-def h_cluster(E, shapes, use_attr, same_ids=False, carbon_only=False, doubles=None, neg=False):
+def h_cluster(E, shapes, use_attr, same_ids=False, carbon_only=False, doubles=None, neg=False, free_attr=False):
     from synkit.Graph.Matcher.graph_cluster import GraphCluster
     from synkit.Graph.Matcher.batch_cluster import BatchCluster
 
@@ -71,11 +71,21 @@ def h_cluster(E, shapes, use_attr, same_ids=False, carbon_only=False, doubles=No
         graphs.append(g)
     att = (lambda g: "n%d" % g.number_of_nodes()) if use_attr else (lambda g: None)
     akey = "att" if use_attr else None
+    tags = None
+    if free_attr:
+        # a pre-grouping attribute that is NOT determined by the graph (solver-chosen per item, possibly the empty string):
+        # outside C13's precondition, but batched and one-shot clustering must still agree (C14); classes are then the
+        # isomorphism classes within each attribute group
+        tags = {id(g): str(E.choice("att%d" % i, ["", "x"])) for i, g in enumerate(graphs)}
+        att = lambda g: tags[id(g)]
+        akey = "att"
 
     def mk(order):
         return [dict(g=graphs[i], att=att(graphs[i]), idx=i) for i in order]
 
     iso = {(i, j): _iso(graphs[i], graphs[j]) for i in range(m) for j in range(i + 1, m)}
+    if tags is not None:
+        iso = {(i, j): (f if tags[id(graphs[i])] == tags[id(graphs[j])] else False) for (i, j), f in iso.items()}
 
     def judge(entries, clause, extra=None):
         cls = {e["idx"]: e.get("class") for e in entries}
